@@ -54,4 +54,9 @@ CLAIMED['C06'] = ('DESIGN.md 4/C06', 'gen_fa_spectrum / generate_fa_spectrum / c
     'symbolic dt through the DFT-definition stub: N selection, zero padding, bin slice, dt scaling and the frequency '
     'grid compared bin by bin with an independent DFT oracle (npts<=9, p2_plus<=2, explicit even/odd n), linearity, '
     'trailing zeros, Parseval, the Hermitian inverse (N<=16) and the dominant-bin selection (quadratic |F|^2 comparisons).')
+CLAIMED['C07'] = ('DESIGN.md 4/C07', 'calc_smooth_fa_spectrum / smoothing matrix / Signal.smooth_fa_spectrum executed on a symbolic '
+    'amplitude spectrum (frequencies and bandwidth enumerated, incl. targets exactly on the Fourier grid): every smoothed '
+    'value is shown for ALL amplitudes to equal the independent Konno-Ohmachi weighted mean, to lie in [min,max], to '
+    'reproduce constants, scale linearly and equal the matrix form; bandwidth helpers decided on an arbitrary symbolic '
+    'smoothed spectrum (every above/below-threshold pattern a path).')
 NOT_APPLICABLE = {}
